@@ -286,7 +286,7 @@ class Interp:
     def run_path(self, entry, prefix, want_witness=False):
         self.res = res = PathResult()
         self.decisions = [tuple(d) if isinstance(d, list) else d for d in prefix]; self.dpos = 0; self.nsym = 0; self.inputs = []
-        self.solver.reset(); self.pathcache = {}; self.named = {}; self.sfacts = {}; self.steps = 0; self.expect = []
+        self.solver.reset(); self.pathcache = {}; self.named = {}; self.sfacts = {}; self.steps = 0; self.expect = []; self.handler_depth = {}
         self.sched.reset()
         q0 = self.solver.queries; t0 = self.solver.time
         name = self.resolve(entry)
@@ -340,7 +340,18 @@ class Interp:
         self.violation('panic:' + panic_class(msg), 'panic', vals if st == 'sat' else None, solver=st, msg=msg)
 
     trace = False
+    HANDLER_DEPTH_LIMIT = 256
     def call_fn(self, name, args):
+        # native stack model: the request handler recursing once per input token has no bound; more than HANDLER_DEPTH_LIMIT nested
+        # process_request frames count as stack exhaustion (a 2 MiB thread stack holds a few hundred of them in a debug build)
+        if name == 'process_request::process_request':
+            d = self.handler_depth; k = threading.get_ident(); d[k] = d.get(k, 0) + 1
+            try:
+                if d[k] > self.HANDLER_DEPTH_LIMIT: raise Panic("stack overflow: more than %d nested request handler frames (recursion driven by the input)" % self.HANDLER_DEPTH_LIMIT)
+                return self._call_fn(name, args)
+            finally: d[k] -= 1
+        return self._call_fn(name, args)
+    def _call_fn(self, name, args):
         fn = self.fns[name]
         if self.trace: print('ENTER', name, file=sys.stderr)
         self.res.calls.add(name)
